@@ -85,7 +85,14 @@ def function_obligations(R, worlds, name, scens, npoints=1, prop_tag='ensures', 
         if name in U.inputs:
             continue
         try:
-            U[name]
+            for attempt in range(1, 14):
+                try:
+                    U[name]
+                    break
+                except NeedResample:
+                    F, U, env = worlds.fresh(scen, 0, 100 + attempt)
+            else:
+                raise Undecided('resampling exhausted in spec evaluation')
         except SpecUnavailable:
             continue
         except (Undecided, NeedResample) as e:
